@@ -1096,6 +1096,23 @@ func runL1History(g *gen, mode string, nops int, hstats map[string]int, faulty, 
 			&kop{kind: "delhist", h: hM, before: t(2)}, &kop{kind: "list"})
 		hstats["script_fork"]++
 	}
+	if !faulty && !crashy && mode != "rows" && len(script) == 0 && g.r.Intn(4) == 0 {
+		// the version of the still-empty table is the EMPTY list of version names: an open restricted
+		// to it is an empty tree (not "no restriction"), whatever has been committed since, and the
+		// diff of the current contents against it reports every key
+		h0, hE, hR := nextH, nextH+1, nextH+2
+		nextH += 3
+		script = append(script, &kop{kind: "open", h: h0, when: baseTime - 4000000000, seed: g.r.Int63n(1000000)})
+		for i, k := range keys {
+			script = append(script, &kop{kind: "set", h: h0, key: k, when: baseTime + int64(i%8)*10, pval: int64(g.r.Intn(50))})
+		}
+		script = append(script, &kop{kind: "commit", h: h0},
+			&kop{kind: "open", h: hE, ro: true, only: []string{}, when: baseTime - 3000000000, seed: g.r.Int63n(1000000)},
+			&kop{kind: "dump", h: hE},
+			&kop{kind: "open", h: hR, ro: true, when: baseTime - 2000000000, seed: g.r.Int63n(1000000)},
+			&kop{kind: "diff", h: hR, h2: hE}, &kop{kind: "diff", h: hE, h2: hR})
+		hstats["script_empty_version"]++
+	}
 	if crashy && mode != "rows" && len(script) == 0 && g.r.Intn(3) == 0 {
 		// a table emptied and committed (an empty current version), then opened by a client that
 		// configures ANOTHER branch factor, which writes and commits — with a crash at every point of
